@@ -78,6 +78,24 @@ def _leaf_item(draw, name, n_classes, hw, allow_io=True):
     return it
 
 
+def _file(draw, name, depth, n_classes, hw):
+    """RegFile with 1-3 leaf members and, while depth > 1, one nested RegFile at a non-zero offset"""
+    members = []
+    mcur = 0
+    for j in range(draw(st.integers(1, 2))):
+        m = _leaf_item(draw, f"s{j}", n_classes, hw)
+        m["off"] = mcur + 4 * draw(st.sampled_from([0, 0, 1, 3]))
+        mcur = m["off"] + 4
+        members.append(m)
+    if depth > 1:
+        inner = _file(draw, "g", depth - 1, n_classes, hw)
+        inner["off"] = mcur + 4 * draw(st.sampled_from([1, 0, 2]))
+        mcur = inner["off"] + 4 * inner["word_count"]
+        members.append(inner)
+    wc = mcur // 4 + draw(st.integers(0, 2))
+    return {"name": name, "what": "file", "off": 0, "word_count": wc, "items": members}
+
+
 @st.composite
 def reg_maps(draw):
     hw = draw(st.integers(0, 4)) != 4      # (Hypothesis' first examples take the smallest choices)
@@ -85,7 +103,7 @@ def reg_maps(draw):
     classes = [_reg_class(draw, i, hw) for i in range(n_classes)]
     n_items = draw(st.integers(2, 6))
     with_array = draw(st.integers(0, 2)) == 0
-    with_file = draw(st.integers(0, 2)) == 0
+    with_file = draw(st.integers(0, 7)) != 7
     items = []
     cur = 0
     # one multi-word object (reg32.Memory), mostly of power-of-two size at a word-aligned offset that is not a
@@ -95,23 +113,17 @@ def reg_maps(draw):
         gap = draw(st.sampled_from([0, 0, 1, 2, 5]))
         off = cur + 4 * gap
         name = f"m{i}"
-        if with_array and i == 1:
+        if with_array and i == (1 if n_items > 2 or not with_file else 0):
             elem = _leaf_item(draw, "elem", n_classes, hw, allow_io=False)
             n = draw(st.integers(2, 3))
             step = draw(st.sampled_from([4, 4, 8, 12]))
             items.append({"name": name, "what": "array", "off": off, "elem": elem, "n": n, "step": step})
             cur = off + n * step
         elif with_file and i == n_items - 1:
-            members = []
-            mcur = 0
-            for j in range(draw(st.integers(1, 3))):
-                m = _leaf_item(draw, f"s{j}", n_classes, hw)
-                m["off"] = mcur + 4 * draw(st.sampled_from([0, 0, 1, 3]))
-                mcur = m["off"] + 4
-                members.append(m)
-            wc = mcur // 4 + draw(st.integers(0, 2))
-            items.append({"name": name, "what": "file", "off": off, "word_count": wc, "items": members})
-            cur = off + 4 * wc
+            f = _file(draw, name, draw(st.sampled_from([2, 3, 2, 1])), n_classes, hw)
+            f["off"] = off
+            items.append(f)
+            cur = off + 4 * f["word_count"]
         else:
             it = _leaf_item(draw, name, n_classes, hw)
             if i == 0 and draw(st.integers(0, 4)) != 0:
@@ -124,8 +136,11 @@ def reg_maps(draw):
             moff = cur + 4 * draw(st.sampled_from([0, 0, 1, 2]))
             if words & (words - 1) == 0 and moff % (4 * words) == 0 and draw(st.integers(0, 5)) != 5:
                 moff += 4 * draw(st.integers(1, words - 1))
+            mode = draw(st.sampled_from(["split", "immediate", "readback", "ignore", "split"]))
             items.append({"name": "mem", "what": "mem", "off": moff, "words": words,
-                          "initial": draw(st.sampled_from([0xFFFFFFFF, 0, 0xFFFFFFFF, None]))})
+                          "initial": draw(st.sampled_from([0xFFFFFFFF, 0, 0xFFFFFFFF, None])),
+                          "mode": mode, "unaligned": mode == "split" and draw(st.sampled_from([False, True, False])),
+                          "inline": draw(st.booleans()), "mode_explicit": draw(st.booleans())})
             cur = moff + 4 * words
     total_words = cur // 4 + draw(st.integers(0, 3))
     bits = max(4, (4 * total_words - 1).bit_length())
@@ -142,6 +157,18 @@ def reg_maps(draw):
 
 # ------------------------------------------------------------------------------ schedules
 def _addr(draw, spec, insts, total_bytes, prefer=None):
+    a = _addr_raw(draw, spec, insts, total_bytes, prefer)
+    if a % 4:
+        # "only aligned reads/writes are allowed unless allow_unaligned is set"; an unaligned window must not
+        # reach beyond the end of the memory
+        for i in insts:
+            if i["what"] == "memcell" and i["off"] <= a < i["off"] + 4:
+                if not i["unaligned"] or i["off"] + 4 >= i["mem_off"] + 4 * i["mem_words"]:
+                    a -= a % 4
+    return a
+
+
+def _addr_raw(draw, spec, insts, total_bytes, prefer=None):
     o = draw(st.integers(0, 19))
     cells = [i for i in insts if i["what"] == "memcell"]
     others = [i for i in insts if i["what"] != "memcell"] or insts
@@ -195,7 +222,8 @@ def schedules(draw, spec, max_steps=12, flip=False):
         gap = draw(st.sampled_from([0, 0, 0, 1, 3]))
         if o <= 6:
             strb = draw(st.sampled_from([15, 15, 15, 1, 2, 4, 8, 3, 6, 12, 5, 9, 7, 14, 11, 13, 0]))
-            addr = _addr(draw, spec, insts, total, prefer=multi if strb != 15 else None)
+            cells = [i for i in insts if i["what"] == "memcell"]
+            addr = _addr(draw, spec, insts, total, prefer=(multi + cells) if strb != 15 else None)
             skew = draw(st.sampled_from([(0, 0), (0, 0), (0, 2), (2, 0), (1, 0), (0, 1), (3, 1), (0, 5)]))
             steps.append({"op": "w", "addr": addr, "data": _data(draw), "strb": strb, "aw": skew[0], "w": skew[1],
                           "b": draw(st.sampled_from([-1, -1, 0, 1, 3])), "gap": gap, "start": start})
@@ -206,6 +234,14 @@ def schedules(draw, spec, max_steps=12, flip=False):
                           "r": draw(st.sampled_from([-1, -1, 0, 1, 3])), "gap": gap, "start": start})
     # every schedule: one pipelined pair of writes with AW/W skew - the channel that has accepted write k already
     # presents write k+1 (other address, data, strobes) while the other channel of write k is still outstanding
+    # every schedule with a memory: one partial-strobe write to a memory word (read back by the final sweep)
+    cells = [i for i in insts if i["what"] == "memcell"]
+    if cells:
+        c = draw(st.sampled_from(cells))
+        steps.insert(draw(st.integers(0, len(steps))),
+                     {"op": "w", "addr": c["off"], "data": _data(draw),
+                      "strb": draw(st.sampled_from([2, 6, 1, 12, 5, 10, 8, 14, 7, 9])),
+                      "aw": 0, "w": draw(st.sampled_from([0, 0, 1])), "b": -1, "gap": 0, "start": "seq"})
     targets = [i for i in insts if i["what"] in ("memword", "memuword", "memcell", "reg", "output")]
     if len(targets) >= 2:
         a = draw(st.sampled_from(targets))
